@@ -540,6 +540,61 @@ def check_bitconv(res, facts, tier):
             rule.ok(key, "bit i of the result is input bit %s for every bit string; %d (N, length) cases" % ("i" if name.endswith("le") else "len-1-i", cases), f.loc)
 
 
+def check_digitrange(res, facts):
+    """signed_mod_reduction(n, 2^w) must not overflow for any window find_wnaf admits: interval analysis of its body
+    for n in [0, 2^64) and modulus = 2^w, w over the range tested by find_wnaf's guard"""
+    from arklib import intervals as IV
+    from rules.c07 import E, show
+    rule = res.rule("R-DIGITRANGE", "signed_mod_reduction: no arithmetic overflow and |digit| <= 2^(w-1) for every window width find_wnaf admits (interval analysis)", 62)
+    smr = [f for f in facts.fns(unit="ws", crate="ark_ff") if f.name == "signed_mod_reduction" and f.kind != "Closure"]
+    wn = [f for f in facts.fns(unit="ws", crate="ark_ff") if f.id == "ark_ff::biginteger::BigInteger::find_wnaf"]
+    if not smr or not wn:
+        rule.bad("ark_ff|signed_mod_reduction", "anchor missing (signed_mod_reduction / find_wnaf)")
+        return
+    smr, wn = smr[0], wn[0]
+    # the admitted window range: `(lo..hi).contains(&w)` or comparisons of w against constants
+    lo = hi = None
+    for bb, t in wn.calls():
+        if t["f"].get("name") == "contains":
+            r = E(wn, t["args"][0])
+            if isinstance(r, tuple) and r[0] == "agg" and r[1] == "Range" and all(isinstance(x, int) for x in r[2][:2]):
+                lo, hi = r[2][0], r[2][1]
+            else:
+                # the range literal is a promoted constant: its two integer literals, in source order
+                kc = DF.direct_const(wn, t["args"][0]) or {}
+                lits = [d for d in (kc.get("pdefs") or []) if d.startswith("lit:")]
+                others = [d for d in (kc.get("pdefs") or []) if not d.startswith("lit:")]
+                if len(lits) == 2 and not others:
+                    lo, hi = int(lits[0][4:]), int(lits[1][4:])
+    if lo is None:
+        cs = [E(wn, b["t"]["o"]) for b in wn.bbs if b["t"]["k"] == "switch"]
+        los = [c[3] for c in cs if isinstance(c, tuple) and c[0] == "bin" and c[1] in ("Ge", "Lt") and c[2] == ("arg", 2, ()) and isinstance(c[3], int)]
+        if len(los) == 2:
+            lo, hi = min(los), max(los)
+    call = [t for _, t in wn.calls() if t["f"].get("name") == "signed_mod_reduction"]
+    if lo is None or not call:
+        rule.bad("ark_ff|find_wnaf|window range", "cannot read the admitted window range / the call of signed_mod_reduction off find_wnaf", wn.loc)
+        return
+    marg = E(wn, call[0]["args"][1])
+    if marg != ("bin", "Shl", 1, ("arg", 2, ())):
+        rule.bad("ark_ff|find_wnaf|modulus", "modulus passed to signed_mod_reduction is %s, expected 1 << w" % show(marg), wn.loc)
+        return
+    for w in range(lo, hi):
+        key = "ark_ff|signed_mod_reduction|w=%d" % w
+        try:
+            panics, ret = IV.analyse(smr, {1: (0, (1 << 64) - 1), 2: (1 << w, 1 << w)})
+        except IV.Unsupported as e:
+            rule.undecided(key, str(e), smr.loc)
+            continue
+        panics = [p for p in panics if p[0] not in ("RemainderByZero", "DivisionByZero") or p[2] == "always"]
+        if panics:
+            rule.bad(key, "for window w = %d (modulus 2^%d, admitted by find_wnaf's guard %d..%d) the body can panic in a debug build: %s" % (w, w, lo, hi, ", ".join("%s at line %s (%s)" % p for p in panics)), smr.loc)
+        elif ret is None or ret[0] < -(1 << (w - 1)) - (1 << (w - 1)) or ret[1] > (1 << w) - 1:
+            rule.bad(key, "digit range %s exceeds the window" % (ret,), smr.loc)
+        else:
+            rule.ok(key, "no overflow; result within [%d, %d]" % ret, smr.loc)
+
+
 def run(ctx, res):
     facts = ctx.facts(["ws"])
     res.analysed = facts.stats()
@@ -548,6 +603,7 @@ def run(ctx, res):
     check_discard(res, facts)
     check_endian(res, facts)
     check_recode(res, facts)
+    check_digitrange(res, facts)
     check_shifts(res, facts, ctx.tier)
     check_bitconv(res, facts, ctx.tier)
     return {
